@@ -14,7 +14,7 @@ from ..strategies import computer_config
 PROPERTY = "C10"
 LEVEL = "fault_enumeration"
 RULE = (
-    "Crash points (utterance index k x phase {before_save, mid_write, after_save, after_manifest} x kind {hard kill = _exit "
+    "Crash points (utterance index k x phase {before_save, mid_write, after_save, after_manifest, in_compute} x kind {hard kill = _exit "
     "without flushing, soft = KeyboardInterrupt}) injected into a forked run of the tool with --manifest, --seed and dither > 0; "
     "invariants on the manifest/files right after the crash and on the directory after re-running the same command, against an "
     "uninterrupted reference run. Thorough enumerates the complete grid for 1..5 utterances x workers {0,2} and generated "
@@ -243,7 +243,7 @@ def check_workers(case):
 def _base():
     return dict(
         lens=st.lists(st.sampled_from([40, 25, 9, 3, 64, 17]), min_size=1, max_size=5),
-        seed=st.integers(0, 10 ** 6),
+        seed=st.one_of(st.just(0), st.integers(0, 10 ** 6), st.integers(1, 10 ** 6)),
         ids=st.integers(0, 2),
         dither=st.sampled_from([1.0, 1.0, 5.0]),
         comp=st.sampled_from([True, True, False]),
@@ -256,6 +256,8 @@ def _crash_cases(draw):
     n = len(case["lens"])
     case["crash"] = {"k": draw(st.integers(0, n - 1)), "phase": draw(st.sampled_from(cli_crash.PHASES)), "kind": draw(st.sampled_from(cli_crash.KINDS))}
     case["workers"] = draw(st.sampled_from([0, 0, 0, 0, 2]))
+    if case["crash"]["phase"] == "in_compute":
+        case["workers"] = 0  # the fault is injected in the process that computes the item
     if case["workers"]:
         case["delays"] = draw(st.lists(st.integers(0, 15), min_size=1, max_size=5))
     return case
@@ -284,16 +286,18 @@ def _worker_cases(draw):
 
 def _grid(tier):
     """Complete crash-point grid: utterance counts 1..5 x k x phase x kind x workers {0,2} (thorough);
-    quick enumerates 1 and 3 utterances with workers 0."""
+    quick enumerates 3 utterances with workers 0."""
     nmax = 5 if tier == "thorough" else 3
-    counts = range(1, nmax + 1) if tier == "thorough" else (1, 3)
+    counts = range(1, nmax + 1) if tier == "thorough" else (3,)
     lens_all = [40, 25, 9, 64, 17]
     for n in counts:
         for k in range(n):
             for phase in cli_crash.PHASES:
                 for kind in cli_crash.KINDS:
                     for w in ((0, 2) if tier == "thorough" else (0,)):
-                        yield {"lens": lens_all[:n], "seed": 11 + n, "ids": n + k, "dither": 1.0, "comp": True,
+                        if w and phase == "in_compute":
+                            continue
+                        yield {"lens": lens_all[:n], "seed": (11 + n) * (k % 2), "ids": n + k, "dither": 1.0, "comp": True,
                                "crash": {"k": k, "phase": phase, "kind": kind}, "workers": w, "delays": [7, 0, 3] if w else None}
 
 
